@@ -3,7 +3,8 @@
    on it (tip = one head, pending merges = the other heads in any order), standalone and bound, with every revision
    tagged (tag "<r>" on r, a second tag "u" on the tip, tag "g" on the absent revision 99; bound also untagged), and
    the behaviours
-       Uncommit(n, keep)              n in 1..min(MaxN, revno), keep in BOOLEAN
+       Uncommit(n, keep)              n in 1..min(MaxN, revno), keep in BOOLEAN; also with tree=None; bound: also refused
+                                      by the master
        Commit . Uncommit(1, keep)
    One initial state per graph, its cases as successor states (TLC's workers share the law evaluation).  TLC checks the
    laws of C16 on the transcription for every case and exports for replay the cases with Key % Stride = Offset of the
@@ -22,15 +23,18 @@ TreesOf(P) == LET H == GHeads(P)
 TagsOf(P, tip) == [i \in 1..(Len(P) + 2) |->
                      IF i <= Len(P) THEN [name |-> ToString(i), rev |-> i]
                      ELSE IF i = Len(P) + 1 THEN [name |-> "u", rev |-> tip] ELSE [name |-> "g", rev |-> 99]]
-ActsOf(P, tip) == {<<ActUncommit(n, k)>> : n \in 1..(IF Len(LH(P, tip)) < MaxN THEN Len(LH(P, tip)) ELSE MaxN), k \in BOOLEAN}
-                  \cup {<<ActCommit, ActUncommit(1, k)>> : k \in BOOLEAN}
+MaxNOf(P, tip) == IF Len(LH(P, tip)) < MaxN THEN Len(LH(P, tip)) ELSE MaxN
+ActsOf(P, tip, b) == {<<ActUncommit(n, k)>> : n \in 1..MaxNOf(P, tip), k \in BOOLEAN}
+                     \cup {<<ActUncommitNoTree(n, k)>> : n \in 1..MaxNOf(P, tip), k \in BOOLEAN}
+                     \cup (IF b THEN {<<ActUncommitRefused(n, FALSE)>> : n \in 1..MaxNOf(P, tip)} ELSE {})
+                     \cup {<<ActCommit, ActUncommit(1, k)>> : k \in BOOLEAN}
 \* bound cases also without any tag (a bound uncommit that has tags to drop is a known finding: see harness)
 Case(P, w, b, tg, acts) == [P |-> P, tip |-> w[1], revno |-> Len(LH(P, w[1])), wtp |-> w,
                             tags |-> IF tg THEN TagsOf(P, w[1]) ELSE <<>>, bound |-> b, acts |-> acts]
 CasesOf(P) == IF P = <<>> THEN {[P |-> P, tip |-> Null, revno |-> 0, wtp |-> <<>>, tags |-> <<>>, bound |-> b,
                                  acts |-> <<ActCommit, ActUncommit(1, k)>>] : b \in BOOLEAN, k \in BOOLEAN}
-              ELSE UNION {{Case(P, w, x[1], x[2], acts) : x \in {<<FALSE, TRUE>>, <<TRUE, TRUE>>, <<TRUE, FALSE>>},
-                                                          acts \in ActsOf(P, w[1])} : w \in TreesOf(P)}
+              ELSE UNION {UNION {{Case(P, w, x[1], x[2], acts) : acts \in ActsOf(P, w[1], x[1])}
+                                 : x \in {<<FALSE, TRUE>>, <<TRUE, TRUE>>, <<TRUE, FALSE>>}} : w \in TreesOf(P)}
 
 TagSet(seq) == {<<seq[i].name, seq[i].rev>> : i \in DOMAIN seq}
 S0(x) == St(x.P, x.tip, x.revno, x.wtp, TagSet(x.tags), IF x.bound THEN x.tip ELSE 0, IF x.bound THEN x.revno ELSE 0)
@@ -69,7 +73,16 @@ ExOctopus ==
         x == Case(P, <<1, 2, 3>>, TRUE, TRUE, <<ActCommit, ActUncommit(1, FALSE)>>)
         r == SpecRun(x)
     IN InSpace(x) /\ r[2].P[4] = <<1, 2, 3>> /\ r[2].mtip = 4 /\ r[3].wtp = <<1, 2, 3>> /\ r[3].mtip = 1 /\ r[3].tags = r[1].tags
-ASSUME ExTwiceMergedSide /\ ExUncommitAllWithMerges /\ ExTagKeptOnMerged /\ ExOctopus
+ExNoTree ==                    \* tree=None: the merged side revision 2 is not re-recorded, so its tag goes too
+    LET P == <<<<>>, <<1>>, <<1, 2>>>>
+        x == Case(P, <<3>>, FALSE, TRUE, <<ActUncommitNoTree(1, FALSE)>>)
+        f == Final(x)
+    IN InSpace(x) /\ f.tip = 1 /\ f.wtp = <<3>> /\ {t[1] : t \in f.tags} = {"1", "g"}
+ExRefused ==
+    LET P == <<<<>>, <<1>>>>
+        x == Case(P, <<2>>, TRUE, FALSE, <<ActUncommitRefused(1, FALSE)>>)
+    IN InSpace(x) /\ Final(x) = S0(x)
+ASSUME ExTwiceMergedSide /\ ExUncommitAllWithMerges /\ ExTagKeptOnMerged /\ ExOctopus /\ ExNoTree /\ ExRefused
 
 \* cheap deterministic sampling key (no sorting of the whole case space)
 RECURSIVE SumSeq(_, _)
@@ -78,6 +91,7 @@ RECURSIVE GraphKey(_, _)
 GraphKey(P, r) == IF r > Len(P) THEN 0 ELSE (r * r + 1) * (1 + SumSeq(P[r], 1)) + GraphKey(P, r + 1)
 Key(x) == (GraphKey(x.P, 1) \div GStride) + 7 * SumSeq(x.wtp, 1) + (IF x.bound THEN 5 ELSE 0) + 11 * Len(x.acts)
           + 13 * x.acts[Len(x.acts)].n + (IF x.acts[Len(x.acts)].keep THEN 3 ELSE 0) + Len(x.tags)
+          + (IF x.acts[Len(x.acts)].tree THEN 0 ELSE 17) + (IF x.acts[Len(x.acts)].refuse THEN 19 ELSE 0)
 \* two levels, so that the (single-threaded) export never builds the whole case space
 Sampled == UNION {{x \in CasesOf(P) : Key(x) % Stride = Offset} : P \in {Q \in Graphs : GraphKey(Q, 1) % GStride = Offset % GStride}}
 Export == JsonSerialize(IOEnv.VF_OUT, SetToSeq({[c |-> x] : x \in Sampled}))
